@@ -741,6 +741,9 @@ subroutine solve_t(initial_values, t, min_iter, max_iter, tol, offset, convergen
      return
   end if
 
+  ! No errors so far (should the loop below not run at all i.e. `max_iter` is 0)
+  error_code = 0
+
   ! Solve
   do iteration = 1, max_iter
 
